@@ -517,13 +517,13 @@ theorem attrDecode_OK {code : Nat} {data : Bytes} {len : Nat} {two : Bool} {d : 
   intro hc
   simp only at hc
   unfold attrDecode at h
-  split at h
-  · cases h
-  rename_i hlen
+  by_cases hl : data.length ≠ len
+  · rw [if_pos hl] at h; cases h
+  rw [if_neg hl] at h
   have hlen : data.length = len := by omega
   rcases hc with rfl | rfl | rfl | rfl
   · -- AS_PATH
-    simp only [Nat.reduceEqDiff, if_false, false_or, or_self, if_true] at h
+    rw [if_neg (by decide), if_neg (by decide), if_pos rfl] at h
     unfold decAsPath at h
     split at h
     · simp only [Option.map_eq_some_iff] at h
@@ -535,7 +535,8 @@ theorem attrDecode_OK {code : Nat} {data : Bytes} {len : Nat} {two : Bool} {d : 
         exact ⟨data, rfl, fun _ => asPathOk_Segs _ _ _ hok, by simp⟩
       · cases h
   · -- AS4_PATH
-    simp only [Nat.reduceEqDiff, if_false, false_or, or_self, if_true] at h
+    rw [if_neg (by decide), if_neg (by decide), if_neg (by decide), if_neg (by decide), if_neg (by decide),
+      if_neg (by decide), if_neg (by decide), if_neg (by decide), if_pos rfl] at h
     unfold decAs4Path at h
     split at h
     · cases h
@@ -545,7 +546,7 @@ theorem attrDecode_OK {code : Nat} {data : Bytes} {len : Nat} {two : Bool} {d : 
         exact ⟨data, rfl, fun _ => asPathOk_Segs _ _ _ hok, by simp⟩
       · cases h
   · -- AGGREGATOR
-    simp only [Nat.reduceEqDiff, if_false, false_or, or_self, if_true] at h
+    rw [if_neg (by decide), if_neg (by decide), if_neg (by decide), if_neg (by decide), if_pos rfl] at h
     unfold decAggregator at h
     split at h
     · cases h
@@ -556,13 +557,13 @@ theorem attrDecode_OK {code : Nat} {data : Bytes} {len : Nat} {two : Bool} {d : 
       · injection h with h; subst h
         exact ⟨data, rfl, by simp, fun _ => by omega⟩
   · -- AS4_AGGREGATOR
-    simp only [Nat.reduceEqDiff, if_false, false_or, or_self, if_true] at h
+    rw [if_neg (by decide), if_neg (by decide), if_neg (by decide), if_neg (by decide), if_neg (by decide),
+      if_neg (by decide), if_neg (by decide), if_neg (by decide), if_neg (by decide), if_pos rfl] at h
     unfold decExact at h
     split at h
     · cases h
     · injection h with h; subst h
       exact ⟨data, rfl, by simp, by simp⟩
-
 
 /-! ## the attribute loop -/
 
@@ -581,20 +582,30 @@ theorem attrStore_spec (two : Bool) (s : AState) (a : Attr) (hs : AttrsOK s.attr
     | exact ⟨rfl, hs⟩
     | exact ⟨rfl, AttrsOK_append hs ha⟩
 
+theorem attrDecoded_spec (two : Bool) (buf : Bytes) (s : AState) (flags code alen pos : Nat)
+    (hs : AttrsOK s.attrs) :
+    (attrDecoded two buf s flags code alen pos).pos = pos + alen ∧
+    AttrsOK (attrDecoded two buf s flags code alen pos).attrs := by
+  unfold attrDecoded
+  split
+  · rename_i d hd
+    exact attrStore_spec two { s with pos := pos + alen } ⟨code, flags, d⟩ hs (attrDecode_OK flags hd)
+  · split
+    · exact ⟨rfl, hs⟩
+    · exact ⟨rfl, hs⟩
+
 theorem attrKnown_spec (two : Bool) (buf : Bytes) (s : AState) (flags code alen pos expected : Nat)
     (hs : AttrsOK s.attrs) :
     (attrKnown two buf s flags code alen pos expected).pos = pos + alen ∧
     AttrsOK (attrKnown two buf s flags code alen pos expected).attrs := by
   unfold attrKnown
-  split
-  · exact ⟨rfl, hs⟩
-  · split
-    · rename_i d hd
-      have := attrStore_spec two { s with pos := pos + alen } ⟨code, flags, d⟩ hs (attrDecode_OK flags hd)
-      exact this
-    · split
-      · exact ⟨rfl, hs⟩
-      · exact ⟨rfl, hs⟩
+  by_cases hfc : flagsConflict flags expected = true
+  · simp only [hfc, if_true, true_and]
+    split
+    · exact ⟨rfl, hs⟩
+    · exact attrDecoded_spec two buf _ flags code alen pos hs
+  · simp only [hfc, if_false, false_and, Bool.false_eq_true]
+    exact attrDecoded_spec two buf s flags code alen pos hs
 
 theorem canonicalFlags_none {code : Nat} (h : canonicalFlags code = none) :
     code ≠ 2 ∧ code ≠ 7 ∧ code ≠ 17 ∧ code ≠ 18 := by
